@@ -52,7 +52,7 @@ print(json.dumps(out))
 """
 
 _cache: Dict[str, dict] = {}
-ROOTS = ("numpy", "xarray", "scipy", "pandas", "numba")
+ROOTS = ("numpy", "xarray", "scipy", "pandas", "numba", "requests")
 
 
 def resolve(chains: Iterable[str]) -> Dict[str, dict]:
